@@ -336,6 +336,39 @@ fn generate_big(out: &Path) {
     println!("bytes_wide16m: table {} entries {} free slots {free} max chain {} key file {} val file {}", dec.n, model.len(), dec.max_chain, img.key.len(), img.val.len());
 }
 
+/// the key bytes every key type makes of integers and strings (what ends up in the files and in the placement hash)
+fn write_conversions(out: &Path) {
+    use abyssiniandb::{DbBytes, DbI64, DbMapKeyType, DbString, DbU64, DbVu64};
+    let mut ints: Vec<u64> = vec![0, 1, 5, 127, 128, 255, 256, 65535, 65536, 0x0102_0304_0506_0708, u64::MAX, u64::MAX - 1, 1 << 63, (1 << 63) - 1];
+    for b in [7u32, 14, 21, 28, 35, 42, 49, 56] {
+        ints.push((1 << b) - 1);
+        ints.push(1 << b);
+    }
+    let mut t = String::from("# key bytes made by the pinned release (4b82afd): <type> <source> <input> <hex of as_bytes()>\n");
+    for &x in ints.iter() {
+        t.push_str(&format!("bytes u64 {x} {}\n", util::hex(DbBytes::from(x).as_bytes())));
+        t.push_str(&format!("bytes ref_u64 {x} {}\n", util::hex(DbBytes::from(&x).as_bytes())));
+        t.push_str(&format!("string u64 {x} {}\n", util::hex(DbString::from(x).as_bytes())));
+        t.push_str(&format!("string ref_u64 {x} {}\n", util::hex(DbString::from(&x).as_bytes())));
+        t.push_str(&format!("u64 u64 {x} {}\n", util::hex(DbU64::from(x).as_bytes())));
+        t.push_str(&format!("u64 ref_u64 {x} {}\n", util::hex(DbU64::from(&x).as_bytes())));
+        t.push_str(&format!("vu64 u64 {x} {}\n", util::hex(DbVu64::from(x).as_bytes())));
+        t.push_str(&format!("vu64 ref_u64 {x} {}\n", util::hex(DbVu64::from(&x).as_bytes())));
+        let i = x as i64;
+        t.push_str(&format!("i64 i64 {i} {}\n", util::hex(DbI64::from(i).as_bytes())));
+        t.push_str(&format!("i64 ref_i64 {i} {}\n", util::hex(DbI64::from(&i).as_bytes())));
+    }
+    for sx in ["", "a", "abc", "h\u{e9}llo", "with space", "\u{1F600}"] {
+        let h = util::hex(sx.as_bytes());
+        t.push_str(&format!("bytes str {h} {}\n", util::hex(DbBytes::from(sx).as_bytes())));
+        t.push_str(&format!("string str {h} {}\n", util::hex(DbString::from(sx).as_bytes())));
+        t.push_str(&format!("u64 str {h} {}\n", util::hex(DbU64::from(sx).as_bytes())));
+        t.push_str(&format!("i64 str {h} {}\n", util::hex(DbI64::from(sx).as_bytes())));
+    }
+    std::fs::write(out.join("conversions.txt"), t).unwrap();
+    println!("conversions.txt written");
+}
+
 fn main() {
     let out = std::env::args().nth(1).expect("output directory");
     let out = Path::new(&out);
@@ -343,6 +376,11 @@ fn main() {
         generate_big(out);
         return;
     }
+    if std::env::args().nth(2).as_deref() == Some("only-conversions") {
+        write_conversions(out);
+        return;
+    }
+    write_conversions(out);
     let mut seed = 4242;
     for kt in ["bytes", "string", "u64", "i64", "vu64"] {
         for (tag, b) in [("t8", HashBucketsParam::BucketsSize(8)), ("t128", HashBucketsParam::Capacity(100)), ("t4096", HashBucketsParam::BucketsSize(4096))] {
